@@ -37,3 +37,4 @@ MUTANTS = [
 MUTANTS.append(dict(name="depth-placeholder-dropped-before-reparse", file='core/loader/schemas/extractor.py', expect="R8.8", old='        if n not in context.parsed_schemas and n not in context.registered_keys_by_raw_name:\n            _parse_schema(n, nd, context, allow_self_reference=True)\n', new="        if n in context.parsed_schemas and getattr(context.parsed_schemas[n], '_max_depth_exceeded_marker', False):\n            context.parsed_schemas.pop(n)\n        if n not in context.parsed_schemas and n not in context.registered_keys_by_raw_name:\n            _parse_schema(n, nd, context, allow_self_reference=True)\n"))
 MUTANTS.append(dict(name='exit-gives-back-two-units', file='core/parsing/unified_cycle_detection.py', expect='R8.9', old='        context.recursion_depth -= 1\n', new='        context.recursion_depth -= 2\n'))
 MUTANTS.append(dict(name='default-depth-limit-400', file='core/parsing/context.py', expect='R8.10', old='os.environ.get("PYOPENAPI_MAX_DEPTH", 150)', new='os.environ.get("PYOPENAPI_MAX_DEPTH", 400)'))
+MUTANTS.append(dict(name='anonymous-schemas-not-cut-at-the-depth-limit', file='core/parsing/schema_parser.py', expect='R8.4', old='    # The tracker only bounds named schemas. Anonymous ones (inline oneOf / anyOf / allOf members, additionalProperties\n    # values) nest as deep as the document does: cut them at the depth limit too, before the interpreter stack is\n    # exhausted. A `$ref` node continues: its target is a named schema, which the tracker bounds itself.\n    if (\n        schema_name is None\n        and isinstance(schema_node, Mapping)\n        and "$ref" not in schema_node\n        and context.unified_cycle_context.recursion_depth\n        > int(os.environ.get("PYOPENAPI_MAX_DEPTH", context.unified_cycle_context.max_depth))\n    ):\n        context.unified_exit_schema(schema_name)  # Balance the enter call\n        return IRSchema(type="object", description="[Maximum recursion depth exceeded]", _max_depth_exceeded_marker=True)\n\n', new=''))
